@@ -7,10 +7,10 @@ tools/seeded.sh $M/C03/out/2 C03-h-negative-zone-minutes C03
 tools/seeded.sh $M/C06/out/1 C06-g-xmp-skip-overshoot C06 C10
 tools/seeded.sh $M/C06/out/2 C06-h-largesize-child C06 C11
 tools/seeded.sh $M/C08/out/1 C08-g-stale-peek-largesize C08
-tools/seeded.sh $M/C08/out/2 C08-h-small-caller-bufio C08
+tools/seeded.sh $M/C08/out/2 C08-h-small-caller-bufio C08 C10
 tools/seeded.sh $M/C10/out/1 C10-g-skip-by-seek C10
 tools/seeded.sh $M/C10/out/2 C10-h-caller-bufio-pooled C10 C04
-tools/seeded.sh $M/C11/out/1 C11-g-discard-by-seek C11
+tools/seeded.sh $M/C11/out/1 C11-g-discard-by-seek C11 C08
 tools/seeded.sh $M/C11/out/2 C11-h-prvw-remain C11
 tools/seeded.sh $M/C13/out/1 C13-g-stale-attr-slice C13
 tools/seeded.sh $M/C13/out/2 C13-h-date-by-length C13
